@@ -482,4 +482,139 @@ theorem symbNaive_partition_list (n maxsuper : Nat) (cols : Nat → List Nat) (r
     rw [hsup, range_map_get _ _ _ (by omega)]
     exact achain_supOf _ _ _ hch s hs _ (by omega) (by omega)
 
+
+/-! ### row lists -/
+
+theorem getElem!_mem_of_lt {α : Type} [Inhabited α] (l : List α) (i : Nat) (h : i < l.length) : l[i]! ∈ l := by
+  rw [List.getElem!_eq_getElem?_getD, List.getElem?_eq_getElem h]; exact List.getElem_mem h
+
+theorem getElem!_map_of_lt {α β : Type} [Inhabited α] [Inhabited β] (f : α → β) (l : List α) (i : Nat) (h : i < l.length) :
+    (l.map f)[i]! = f l[i]! := by
+  rw [List.getElem!_eq_getElem?_getD, List.getElem?_map, List.getElem!_eq_getElem?_getD, List.getElem?_eq_getElem h]; rfl
+
+theorem achain_first_next (a : Nat) (asc : List SN) (n : Nat) (h : AChain a asc n) :
+    ∀ s < asc.length, (xsOf asc n)[s]! = asc[s]!.first ∧ (xsOf asc n)[s + 1]! = asc[s]!.last + 1 := by
+  induction asc generalizing a with
+  | nil => intro s hs; simp at hs
+  | cons t ts ih =>
+    obtain ⟨h1, h2, h3⟩ := h
+    intro s hs
+    rw [xsOf_cons]
+    cases s with
+    | zero =>
+      rw [List.getElem!_cons_zero, List.getElem!_cons_succ, achain_head _ _ _ h3, List.getElem!_cons_zero]
+      exact ⟨rfl, rfl⟩
+    | succ s =>
+      rw [List.getElem!_cons_succ, List.getElem!_cons_succ, List.getElem!_cons_succ]
+      exact ih _ h3 s (by simpa using hs)
+
+/-- **row lists.**  For every input and every predicted supernode `s = [f .. f+w-1]`: the row list has at
+least `w` entries, its leading `w` entries are `f, f+1, …` in order, the remaining entries are distinct
+rows strictly below the supernode. -/
+theorem symbNaive_rows_list (n maxsuper : Nat) (cols : Nat → List Nat) (relaxEnd : Nat → Option Nat) :
+    let o := symbNaive n maxsuper cols relaxEnd
+    ∀ s < o.rows.length,
+      o.xsup[s + 1]! - o.xsup[s]! ≤ (o.rows[s]!).length ∧
+      (∀ c < o.xsup[s + 1]! - o.xsup[s]!, (o.rows[s]!)[c]! = o.xsup[s]! + c) ∧
+      (∀ r ∈ (o.rows[s]!).drop (o.xsup[s + 1]! - o.xsup[s]!), o.xsup[s + 1]! - 1 < r) ∧
+      ((o.rows[s]!).drop (o.xsup[s + 1]! - o.xsup[s]!)).Nodup := by
+  intro o s hs
+  have hch := run_achain n maxsuper cols relaxEnd
+  have hinv := run_sinv n maxsuper cols relaxEnd
+  have hx : o.xsup = xsOf (run n maxsuper cols relaxEnd).sns.reverse n := rfl
+  have hr : o.rows = (run n maxsuper cols relaxEnd).sns.reverse.map rowList := rfl
+  have hs' : s < (run n maxsuper cols relaxEnd).sns.reverse.length := by rw [hr] at hs; simpa using hs
+  obtain ⟨hf, hl⟩ := achain_first_next _ _ _ hch s hs'
+  rw [hx, hf, hl, hr, getElem!_map_of_lt _ _ _ hs']
+  generalize htdef : (run n maxsuper cols relaxEnd).sns.reverse[s]! = t
+  have htm : t ∈ (run n maxsuper cols relaxEnd).sns := by
+    rw [← htdef]; exact List.mem_reverse.mp (getElem!_mem_of_lt _ _ hs')
+  have hnd := sinv_rows_nodup _ _ _ hinv t htm
+  have hlen : (seg t.first t.last).length = t.last + 1 - t.first := seg_length _ _
+  unfold rowList
+  refine ⟨by rw [List.length_append, hlen]; omega, ?_, ?_, ?_⟩
+  · intro c hc
+    rw [List.getElem!_eq_getElem?_getD, List.getElem?_append_left (by rw [hlen]; exact hc),
+      ← List.getElem!_eq_getElem?_getD, seg_get _ _ _ hc]
+  · rw [List.drop_left' hlen]
+    intro r hr'
+    have := (List.mem_filter.mp hr').2
+    simp at this; omega
+  · rw [List.drop_left' hlen]
+    exact hnd.filter _
+
+
+/-! ### U columns -/
+
+/-- ascending supernodes with the U row sets of their columns (ascending): all rows of a column lie
+strictly above the column's supernode -/
+def AUInv : List SN → List (List Nat) → Prop
+  | [], us => us = []
+  | t :: ts, us => ∃ mine others, us = mine ++ others ∧ mine.length = t.last + 1 - t.first ∧
+      (∀ u ∈ mine, ∀ r ∈ u, r < t.first) ∧ AUInv ts others
+
+theorem auinv_snoc (asc : List SN) (U : List (List Nat)) (t : SN) (mine : List (List Nat)) (h : AUInv asc U)
+    (hl : mine.length = t.last + 1 - t.first) (hb : ∀ u ∈ mine, ∀ r ∈ u, r < t.first) : AUInv (asc ++ [t]) (U ++ mine) := by
+  induction asc generalizing U with
+  | nil => simp only [AUInv] at h; subst h; exact ⟨mine, [], by simp, hl, hb, rfl⟩
+  | cons u us ih =>
+    obtain ⟨m', o', h1, h2, h3, h4⟩ := h
+    exact ⟨m', o' ++ mine, by rw [h1, List.append_assoc], h2, h3, ih _ h4⟩
+
+theorem sinv_auinv (l : List SN) (us : List (List Nat)) (b : Nat) (h : SInv l us b) : AUInv l.reverse us.reverse := by
+  induction l generalizing us b with
+  | nil => obtain ⟨_, h2⟩ := h; subst h2; rfl
+  | cons t rest ih =>
+    obtain ⟨_, _, _, mine, others, h4, h5, h6, h7⟩ := h
+    rw [h4, List.reverse_append, List.reverse_cons]
+    exact auinv_snoc _ _ t mine.reverse (ih _ _ h7) (by rw [List.length_reverse, h5])
+      (fun u hu r hr => (h6 u (List.mem_reverse.mp hu)).1 r hr)
+
+theorem auinv_get (a : Nat) (asc : List SN) (n : Nat) (U : List (List Nat)) (hc : AChain a asc n) (hu : AUInv asc U) :
+    ∀ v, a ≤ v → v < n → ∀ r ∈ U[v - a]!, r < (xsOf asc n)[supOf asc v]! := by
+  induction asc generalizing a U with
+  | nil => intro v h1 h2; simp only [AChain] at hc; omega
+  | cons t ts ih =>
+    obtain ⟨h1, h2, h3⟩ := hc
+    obtain ⟨mine, others, e1, e2, e3, e4⟩ := hu
+    intro v hv1 hv2 r hr
+    unfold supOf
+    rw [List.findIdx_cons, xsOf_cons]
+    by_cases hle : v ≤ t.last
+    · have : decide (v ≤ t.last) = true := by simpa using hle
+      simp only [this, cond_true]
+      rw [List.getElem!_cons_zero]
+      have hlt : v - a < mine.length := by omega
+      rw [e1, List.getElem!_eq_getElem?_getD, List.getElem?_append_left hlt, ← List.getElem!_eq_getElem?_getD] at hr
+      exact e3 _ (getElem!_mem_of_lt _ _ hlt) r hr
+    · have : decide (v ≤ t.last) = false := by simpa using hle
+      simp only [this, cond_false]
+      rw [List.getElem!_cons_succ]
+      have hge : mine.length ≤ v - a := by omega
+      rw [e1, List.getElem!_eq_getElem?_getD, List.getElem?_append_right hge, ← List.getElem!_eq_getElem?_getD] at hr
+      have hidx : v - a - mine.length = v - (t.last + 1) := by omega
+      rw [hidx] at hr
+      exact ih _ _ h3 e4 v (by omega) hv2 r hr
+
+/-- **U columns.**  For every input and every column `j`: the predicted U rows lie strictly above the
+column's supernode and are strictly increasing (so: no repeats). -/
+theorem symbNaive_ucols_list (n maxsuper : Nat) (cols : Nat → List Nat) (relaxEnd : Nat → Option Nat) :
+    let o := symbNaive n maxsuper cols relaxEnd
+    ∀ j < n, (∀ r ∈ o.ucols[j]!, r < o.xsup[o.supno[j]!]!) ∧ (o.ucols[j]!).Pairwise (· < ·) := by
+  intro o j hj
+  have hch := run_achain n maxsuper cols relaxEnd
+  have hinv := run_sinv n maxsuper cols relaxEnd
+  have hx : o.xsup = xsOf (run n maxsuper cols relaxEnd).sns.reverse n := rfl
+  have hu : o.ucols = (run n maxsuper cols relaxEnd).ucols.reverse := rfl
+  have hsup : o.supno = (List.range n).map (supOf (run n maxsuper cols relaxEnd).sns.reverse) := rfl
+  constructor
+  · intro r hr
+    rw [hsup, range_map_get _ _ _ hj, hx]
+    have := auinv_get 0 _ n _ hch (sinv_auinv _ _ _ hinv) j (Nat.zero_le _) hj r
+    exact this (by simpa [hu] using hr)
+  · have hlen : j < o.ucols.length := by rw [hu, List.length_reverse, sinv_length _ _ _ hinv]; exact hj
+    have hm := getElem!_mem_of_lt o.ucols j hlen
+    rw [hu] at hm ⊢
+    exact sinv_ucols_sorted _ _ _ hinv _ (List.mem_reverse.mp hm)
+
 end Slu.Symb
